@@ -39,6 +39,9 @@
 (* FixDelete / FixPatch select the repaired behaviour (TRUE) or the        *)
 (* behaviour of the snapshot 671b511 (FALSE) for two defects found with    *)
 (* this specification (negative controls run the FALSE variants).          *)
+(* CacheTrunc = FALSE is the negative control for the verified-prefix      *)
+(* cache of verify_leading_dirs (stale entries survive a change of         *)
+(* directory and a symlinked a/d/c is trusted because a/b/c was verified). *)
 (***************************************************************************)
 EXTENDS WorkTreeConfNames
 
@@ -47,7 +50,8 @@ CONSTANTS TreeSet,      \* the trees an action may materialise
           MaxLen,       \* number of operations in a history
           Prots,        \* settings of core.protectNTFS / core.protectHFS explored
           FixDelete,    \* deletions refuse to traverse a symlinked leading directory
-          FixPatch      \* patch application replaces a symlink at the target path
+          FixPatch,     \* patch application replaces a symlink at the target path
+          CacheTrunc    \* verify_leading_dirs drops the stale tail of its verified-prefix cache (TRUE: as implemented)
 
 VARIABLES fs,      \* path (sequence of components from the model root) -> node
           idx,     \* tree path -> blob as recorded in the index
@@ -276,7 +280,9 @@ ListNames(F, cs) == LET r == SRes(F, cs) IN
 (* Running state of one operation: file system, index being built, touched *)
 (* locations, r = "run" while executing, then ok / refused / err           *)
 (***************************************************************************)
-St(F, I) == [F |-> F, I |-> I, t |-> {}, r |-> "run"]
+\* sp: the chain of leading directories already verified in this walk (safe_prefix of verify_leading_dirs;
+\* shared across the entries by build_index_from_tree and Stash.pop, empty for every other call)
+St(F, I) == [F |-> F, I |-> I, t |-> {}, r |-> "run", sp |-> <<>>]
 Err(S)     == [S EXCEPT !.r = "err"]
 Refused(S) == [S EXCEPT !.r = "refused"]
 Done(S)    == IF S.r = "run" THEN [S EXCEPT !.r = "ok"] ELSE S
@@ -309,6 +315,27 @@ VerifyFrom(F, lead, i) ==
          ELSE VerifyFrom(F, lead, i + 1)
 VerifyLeading(F, cs) == IF Len(cs) <= 1 \/ (Len(cs) = 2 /\ cs[1] = "") THEN "ok" ELSE VerifyFrom(F, Front(cs), 1)
 
+\* verify_leading_dirs(path, safe_prefix, W) with the shared cache: the components that agree with the
+\* cached chain are trusted without an lstat; the rest are lstat-ed and appended.  Returns [v, sp].
+RECURSIVE CommonLen(_, _, _)
+CommonLen(a, b, k) == IF k < Len(a) /\ k < Len(b) /\ a[k + 1] = b[k + 1] THEN CommonLen(a, b, k + 1) ELSE k
+RECURSIVE VerifyCachedFrom(_, _, _, _)
+VerifyCachedFrom(F, lead, i, sp) ==
+    IF i > Len(lead) THEN [v |-> "ok", sp |-> sp]
+    ELSE LET r == Walk(F, W, SubSeq(lead, 1, i), Fuel) IN
+         IF r.e = "ENOENT" THEN [v |-> "ok", sp |-> sp]
+         ELSE IF r.e # "ok" THEN [v |-> "err", sp |-> sp]
+         ELSE IF r.loc \notin DOMAIN F THEN [v |-> "ok", sp |-> sp]
+         ELSE IF F[r.loc].t = "l" THEN [v |-> "refused", sp |-> sp]
+         ELSE VerifyCachedFrom(F, lead, i + 1,
+                               IF i <= Len(sp) THEN [sp EXCEPT ![i] = lead[i]] ELSE Append(sp, lead[i]))
+VerifyCached(F, sp, cs) ==
+    IF Len(cs) <= 1 \/ (Len(cs) = 2 /\ cs[1] = "") THEN [v |-> "ok", sp |-> sp]
+    ELSE LET lead == Front(cs)
+             common == CommonLen(sp, lead, 0)
+             sp0 == IF CacheTrunc THEN SubSeq(sp, 1, common) ELSE sp      \* del safe_prefix[common:]
+         IN VerifyCachedFrom(F, lead, common + 1, sp0)
+
 \* build_file_from_blob(blob, mode, W/cs)
 BuildFile(S, k, cs) ==
     IF S.r # "run" THEN S
@@ -330,10 +357,10 @@ BuildFile(S, k, cs) ==
 BuildEntry(S, ent, pr) ==
     IF S.r # "run" THEN S
     ELSE IF ~ValidPath(ent.p, pr) THEN Refused(S)
-    ELSE LET v == VerifyLeading(S.F, ent.p) IN
+    ELSE LET vc == VerifyCached(S.F, S.sp, ent.p)  v == vc.v  S0 == [S EXCEPT !.sp = vc.sp] IN
     IF v = "refused" THEN Refused(S) ELSE IF v = "err" THEN Err(S)
-    ELSE LET S1 == IF Len(ent.p) > 1 /\ ~Exists(S.F, Front(ent.p))
-                   THEN Do(S, Makedirs(S.F, Front(ent.p), FALSE)) ELSE S
+    ELSE LET S1 == IF Len(ent.p) > 1 /\ ~Exists(S0.F, Front(ent.p))
+                   THEN Do(S0, Makedirs(S0.F, Front(ent.p), FALSE)) ELSE S0
              S2 == IF S1.r # "run" THEN S1
                    ELSE IF ent.k.t = "g" THEN (IF IsDirP(S1.F, ent.p) THEN S1 ELSE Do(S1, Mkdir(S1.F, ent.p)))
                    ELSE BuildFile(S1, ent.k, ent.p)
@@ -473,10 +500,10 @@ SameEntry(v, k) == \/ v.t = "f" /\ k.t = "f" /\ v.c = k.c /\ k.m \in {"644", "75
 StashEntry(S, ent, pr) ==
     IF S.r # "run" THEN S
     ELSE IF ~ValidPath(ent.p, pr) THEN Refused(S)
-    ELSE LET v == VerifyLeading(S.F, ent.p) IN
+    ELSE LET vc == VerifyCached(S.F, S.sp, ent.p)  v == vc.v  S0 == [S EXCEPT !.sp = vc.sp] IN
     IF v = "refused" THEN Refused(S) ELSE IF v = "err" THEN Err(S)
-    ELSE LET S1 == IF Len(ent.p) > 1 /\ ~Exists(S.F, Front(ent.p))
-                   THEN Do(S, Makedirs(S.F, Front(ent.p), FALSE)) ELSE S
+    ELSE LET S1 == IF Len(ent.p) > 1 /\ ~Exists(S0.F, Front(ent.p))
+                   THEN Do(S0, Makedirs(S0.F, Front(ent.p), FALSE)) ELSE S0
              S2 == IF S1.r # "run" THEN S1
                    ELSE IF ent.k.t = "g" THEN (IF IsDirP(S1.F, ent.p) THEN S1 ELSE Do(S1, Mkdir(S1.F, ent.p)))
                    ELSE BuildFile(S1, ent.k, ent.p)
@@ -602,6 +629,11 @@ La   == LK(<<"a">>)                      \* sibling
 Ld   == LK(<<"d">>)
 Lsx  == LK(<<"..", "repo-x", "f">>)      \* file in the sibling whose name has the work tree's name as a prefix
 Lsd  == LK(<<"..", "repo-x">>)
+\* dangling: the target does not exist (outside, sibling, a hook in .git, absolute)
+Ldo == LK(<<"..", "tmp">>)
+Lds == LK(<<"..", "repo-x", "x">>)
+Ldg == LK(<<".git", "hooks", "x">>)
+Lda == LK(<<"", "p", "tmp">>)
 Lup  == LK(<<"..", "..", "od">>)         \* for links one level down
 DA   == DK({E(<<"x">>, FA)})
 DB   == DK({E(<<"x">>, FB)})
@@ -620,7 +652,7 @@ EntsTiny == {E(<<"d">>, k) : k \in {FB, Lod, Lsx, DA, DB}} \cup {E(<<"git~1">>, 
 TreesTiny == TreesOver(EntsTiny, 1)
 TreesPatchNeg == {{E(<<"d">>, Lcfg)}, {E(<<"d">>, FB)}}
 \* core
-EntsCore == {E(<<"d">>, k) : k \in {FA, FB, Lod, Lof, Labs, Lgit, Lcfg, Lsx, Lsd, La, DA, DB, DC, DD, DLe, GK}}
+EntsCore == {E(<<"d">>, k) : k \in {FA, FB, Lod, Lof, Labs, Lgit, Lcfg, Lsx, Lsd, Ldo, Ldg, La, DA, DB, DC, DD, DLe, GK}}
             \cup {E(<<"a">>, k) : k \in {FA, Ld, DA}}
             \cup {E(<<".git">>, FA), E(<<"git~1">>, FA), E(<<"d", "x">>, FA), E(<<"..", "of">>, FA)}
 TreesCore == TreesOver(EntsCore, 1)
@@ -630,6 +662,18 @@ EntsMid == {E(<<"d">>, k) : k \in {FB, Lod, Lgit, Lcfg, Lsx, DA, DB, DD, DLe, GK
            \cup {E(<<"git~1">>, FA), E(<<"..", "of">>, FA)}
 TreesMid == {T \in TreesOver(EntsMid, 2) : Cardinality(T) = 2 => \E e \in T : e.n \in {<<"git~1">>}}
             \cup {{E(<<"a">>, FA), E(<<"d">>, DB)}, {E(<<"a">>, Ld), E(<<"d">>, DB)}}
+\* dangling links
+TreesDang == TreesOver({E(<<"d">>, k) : k \in {Ldo, Lds, Ldg, Lda, FB, DB}}, 1)
+\* deep paths with a same-named component in sibling directories (the verified-prefix cache)
+Lout3 == LK(<<"..", "..", "..", "od">>)
+DeepLink  == {E(<<"a">>, DK({E(<<"d">>, DK({E(<<"c">>, Lout3), E(<<"e">>, FA)}))}))}                    \* a/d/c -> outside
+DeepFiles == {E(<<"a">>, DK({E(<<"b">>, DK({E(<<"c">>, DK({E(<<"e">>, FA), E(<<"x">>, FA)}))})),
+                             E(<<"d">>, DK({E(<<"0">>, FA), E(<<"c">>, DK({E(<<"z">>, FB)}))}))}))}     \* a/b/c/{e,x} a/d/0 a/d/c/z
+DeepCraft == {E(<<"a">>, DK({E(<<"b">>, DK({E(<<"c">>, DK({E(<<"e">>, FA), E(<<"x">>, FA)}))})),
+                             E(<<"d">>, DK({E(<<"0">>, FA), E(<<"c">>, Lout3), E(<<"c", "z">>, FB)}))}))} \* one tree: c is a link, "c/z" a name
+DeepOne   == {E(<<"a">>, DK({E(<<"d">>, DK({E(<<"c">>, DK({E(<<"z">>, FB)}))}))}))}
+TreesDeep == {{}, DeepLink, DeepFiles, DeepCraft, DeepOne}
+OpsWalk == {"CL", "RI", "ST", "RH", "COF"}
 \* gitlinks: three operations
 EntsGl == {E(<<"d">>, k) : k \in {GK, FB, Lod, DA, DK({E(<<"x">>, GK)})}} \cup {E(<<"git~1">>, FA)}
 TreesGl == TreesOver(EntsGl, 1)
@@ -638,13 +682,13 @@ EntsSmall == {E(<<"d">>, k) : k \in {FB, Lod, Lgit, Lcfg, Lsx, DA, DB, DC, DD, D
              \cup {E(<<"git~1">>, FA)}
 TreesSmall == {T \in TreesOver(EntsSmall, 2) : Cardinality(T) = 2 => \E e \in T : e.n = <<"a">>}
 \* full
-EntsFull == {E(<<"d">>, k) : k \in {FA, FB, FX, FN, Lod, Lof, Labs, Lgit, Lcfg, Lhk, Lsx, Lsd, La, DA, DB, DC, DH, DL, DD, DLe, GK, DG}}
+EntsFull == {E(<<"d">>, k) : k \in {FA, FB, FX, FN, Lod, Lof, Labs, Lgit, Lcfg, Lhk, Lsx, Lsd, Ldo, Lds, Ldg, Lda, La, DA, DB, DC, DH, DL, DD, DLe, GK, DG}}
             \cup {E(<<"a">>, k) : k \in {FA, FB, Ld, Lod, DA}}
             \cup {E(<<".git">>, FA), E(<<"git~1">>, FA), E(<<"d", "x">>, FA), E(<<"d", "x">>, FB)}
 TreesFull == TreesOver(EntsFull, 1)
              \cup {T \in TreesOver(EntsFull, 2) : Cardinality(T) = 2 /\ \E e \in T : e \in {E(<<"a">>, Ld), E(<<"a">>, DA), E(<<"git~1">>, FA)}}
 \* every name of the adversarial alphabet, one entry per tree, regular file and symbolic link
-NamesAdv == {<<c>> : c \in Comps \ {"p", "repo", "config", "hooks", "h", "tmp", "e", "of", "od", "ol", "repo-x", "f"}}
+NamesAdv == {<<c>> : c \in Comps \ {"p", "repo", "config", "hooks", "h", "tmp", "e", "of", "od", "ol", "repo-x", "f", "b", "c", "0", "z"}}
             \cup {<<"..", "of">>, <<"..", "..", "tmp">>, <<"d", "..", "..", "of">>, <<".git", "x">>,
                   <<".git", "hooks", "x">>, <<"a", ".git", "x">>, <<"a", ".GIT", "x">>, <<"", "p", "of">>, <<"", "p", "tmp">>,
                   <<"", "p", "repo", ".git", "x">>, <<"d", "", "x">>, <<"d", ".", "x">>, <<"d", "x">>, <<"a", "">>,
